@@ -57,8 +57,10 @@ def one(c):
     fr = np.linspace(0, 0.5 * fs, nfft // 2, endpoint=False)
     r = s.interpolate_frequency(fr)
     out["resampled"] = {"E": hl(r.variance_density.values), "df": hl(r.frequency_step.values), "freq": hl(fr)}
+    out["fstep_input"] = hl(s.frequency_step.values)
     if c["kind"] == "2d":
         out["resampled"]["dth"] = hl(r.direction_step.values)
+        out["dstep_input"] = hl(s.direction_step.values)
     return out
 
 
